@@ -338,6 +338,35 @@ def m_expect(spec, routes, method, raw_path, rng, ims):
     return permitted, info
 
 
+def m_parse_date_lenient(s):
+    """Spellings a robust recipient may still read (RFC 9110 5.6.7 encourages it): letter case, repeated blanks,
+    a day of month without the leading zero.  -> epoch seconds or None."""
+    parts = s.replace(',', ', ').split()
+    if len(parts) != 6:
+        return None
+    day, dom, mon, year, clock, zone = parts
+    if not dom.isdigit() or len(dom) > 2:
+        return None
+    return m_parse_date('%s %02d %s %s %s %s' % (day.rstrip(',').capitalize() + ',', int(dom), mon.capitalize(), year, clock, zone.upper()))
+
+
+def lenient_styles(ts):
+    d = m_http_date(ts)
+    out = {'lower': d.lower(), 'upper': d.upper(), 'dspace': d.replace(', ', ',  ')}
+    if d[5] == '0':
+        out['nopad'] = d[:5] + d[6:]
+    return out
+
+
+def lenient_ims_table():
+    """{header value: (style, 'equal' | 'after')} for the lenient spellings of the fixture mtime and one second later."""
+    out = {}
+    for which, ts in (('equal', T0), ('after', T0 + 1)):
+        for style, v in lenient_styles(ts).items():
+            out[v] = (style, which)
+    return out
+
+
 def m_file_response(route, method, name, data, rng, ims):
     size = len(data)
     head = method == 'HEAD'
@@ -348,6 +377,10 @@ def m_file_response(route, method, name, data, rng, ims):
         d = m_parse_date(ims)
         if d is None:
             out.append(dict(status=400, body=None, hdr={}, cd=None))
+            dl = m_parse_date_lenient(ims)
+            if dl is not None and m_mtime(name) <= dl:
+                # not a valid HTTP-date strictly speaking: ignoring it is right, reading it robustly is permitted too
+                out.append(dict(status=304, body=b'', hdr={}, cd=None))
         elif m_mtime(name) <= d:
             return [dict(status=304, body=b'', hdr={}, cd=None)]
     for o in m_range(rng, size):
@@ -477,7 +510,8 @@ def range_values():
 def ims_values():
     return [None, ('before', m_http_date(T0 - 1)), ('equal', m_http_date(T0)), ('after', m_http_date(T0 + 1)),
             ('past', 'Mon, 01 Jan 1900 00:00:00 GMT'), ('future', 'Fri, 31 Dec 9999 23:59:59 GMT'),
-            ('bad', 'yesterday'), ('bad', m_http_date(T0)[:-4]), ('bad', 'Sun, 32 Sep 2001 01:46:40 GMT'), ('bad', '')]
+            ('bad', 'yesterday'), ('bad', m_http_date(T0)[:-4]), ('bad', 'Sun, 32 Sep 2001 01:46:40 GMT'), ('bad', '')] + \
+        [('lenient-%s-%s' % sw, v) for v, sw in sorted(lenient_ims_table().items())]
 
 
 def range_class(v):
@@ -791,8 +825,12 @@ def run_shard(shard, rep):
             world.request(stack, 'GET', '/__warm__', 'bytes=0-0', m_http_date(T0))
             world.request(stack, 'GET', rd[0][0].rstrip('/') + '/__warm__', 'x', 'y')
         seen = set()
+        lenient, table = {}, lenient_ims_table()
         for i, (stack, method, tokens, mode, rng, ims) in enumerate(cases):
-            run_case(world, rep, part, stack, method, tokens, mode, rng, ims)
+            res = run_case(world, rep, part, stack, method, tokens, mode, rng, ims)[0]
+            if ims in table and rng is None:
+                style, which = table[ims]
+                lenient.setdefault((stack, method, tuple(tokens), mode, style), {})[which] = (res.code, ims)
             k = (method, tokens, mode, rng, ims)
             if k not in seen:
                 seen.add(k)
@@ -801,6 +839,16 @@ def run_shard(shard, rep):
                 rep.sample({'part': part, 'routes': rd, 'stack': stack, 'method': method,
                             'tokens': [t if len(t) < 40 else t[:20] + '...' for t in tokens], 'rendering': mode,
                             'range': rng, 'if_modified_since': ims})
+        # one spelling style, one reading: a server that READS a lenient spelling one second after the file's mtime
+        # (304) reads the same spelling AT the mtime too
+        for (stack, method, tokens, mode, style), got in sorted(lenient.items()):
+            if got.get('after', (None,))[0] == 304 and 'equal' in got and got['equal'][0] != 304:
+                rep.violation({'part': part, 'kind': 'ims-reading-inconsistent', 'stack': stack, 'method': method, 'style': style},
+                              {'case': [part, rd, stack, method, list(tokens), mode, None, got['equal'][1]],
+                               'pair_after': got['after'][1], 'seed': rep.seed},
+                              '%s %s %r: If-Modified-Since %r (mtime + 1 s, spelling style %s) is honoured with 304, but %r (the '
+                              'mtime itself, same style) gives %r' % (stack, method, list(tokens), got['after'][1], style,
+                                                                     got['equal'][1], got['equal'][0]))
     finally:
         fx.close()
 
@@ -843,6 +891,11 @@ def replay(rec):
         for st in STACKS:
             world.request(st, 'GET', '/__warm__', 'bytes=0-0', m_http_date(T0))
         res, opens, permitted = run_case(world, rep, part, stack, method, tuple(tokens), mode, rng, ims)
+        if rec.get('pair_after'):
+            res2 = run_case(world, rep, part, stack, method, tuple(tokens), mode, rng, rec['pair_after'])[0]
+            if res2.code == 304 and res.code != 304:
+                rep.violation({'kind': 'ims-reading-inconsistent'}, rec, 'If-Modified-Since %r -> %r but %r -> 304'
+                              % (ims, res.code, rec['pair_after']))
         det = {'status': res.code, 'headers': res.header_multi(), 'body': res.body[:80],
                'opens': [[e, str(p).replace(fx.top, '<T>')] for e, p in opens],
                'model_permits': [{k: v for k, v in e.items()} for e in permitted],
